@@ -18,7 +18,9 @@
 (***************************************************************************)
 EXTENDS Integers, Sequences, FiniteSets, TLC
 
-CONSTANTS Senders, MaxEpoch, MaxSb, MaxPeer, CtlCompletesData
+CONSTANTS Senders, MaxEpoch, MaxSb, MaxPeer, CtlCompletesData,
+          DropsLateReply   \* TRUE = as found: a wait that ends by T3 / cancel / teardown drops a reply that was routed into its
+                           \* slot concurrently; FALSE = repaired: the slot is closed first and such a reply is returned
 
 VARIABLES cur,        \* current epoch id (0 = never opened)
           live,       \* live[e]: the epoch's ctx is not cancelled
@@ -28,9 +30,10 @@ VARIABLES cur,        \* current epoch id (0 = never opened)
           wire,       \* wire[e]: system bytes of the data frames written on epoch e's socket, in order
           handled,    \* inbound data messages handed to the handlers (sequence)
           nextSb, peerBudget,
-          inflight, sendCnt, errCnt, dropCnt
+          inflight, sendCnt, errCnt, dropCnt,
+          lostReply   \* history: a reply that was taken off the handlers' path by a registry hit was then dropped
 
-vars == <<cur, live, sel, reg, pc, call, out, wire, handled, nextSb, peerBudget, inflight, sendCnt, errCnt, dropCnt>>
+vars == <<cur, live, sel, reg, pc, call, out, wire, handled, nextSb, peerBudget, inflight, sendCnt, errCnt, dropCnt, lostReply>>
 
 Epochs == 1..MaxEpoch
 SbVals == 1..MaxSb
@@ -45,7 +48,7 @@ Init ==
     /\ pc = [s \in Senders |-> "idle"] /\ call = [s \in Senders |-> NoCall] /\ out = [s \in Senders |-> NoOut]
     /\ wire = [e \in Epochs |-> <<>>] /\ handled = <<>>
     /\ nextSb = 1 /\ peerBudget = MaxPeer
-    /\ inflight = 0 /\ sendCnt = 0 /\ errCnt = 0 /\ dropCnt = 0
+    /\ inflight = 0 /\ sendCnt = 0 /\ errCnt = 0 /\ dropCnt = 0 /\ lostReply = FALSE
 
 Dereg(e, b) == reg' = [reg EXCEPT ![e][b] = None]
 
@@ -61,7 +64,7 @@ Begin(s) ==
             /\ nextSb' = nextSb + 1
             /\ pc' = [pc EXCEPT ![s] = "registered"]
             /\ UNCHANGED <<dropCnt, out>>
-    /\ UNCHANGED <<cur, live, sel, wire, handled, peerBudget, inflight, sendCnt, errCnt>>
+    /\ UNCHANGED <<cur, live, sel, wire, handled, peerBudget, inflight, sendCnt, errCnt, lostReply>>
 
 Write(s) ==
     /\ pc[s] = "registered"
@@ -77,12 +80,14 @@ Write(s) ==
             /\ sendCnt' = sendCnt + 1 /\ inflight' = inflight + 1
             /\ pc' = [pc EXCEPT ![s] = "written"]
             /\ UNCHANGED <<out, reg, dropCnt>>
-    /\ UNCHANGED <<cur, live, sel, call, handled, nextSb, peerBudget, errCnt>>
+    /\ UNCHANGED <<cur, live, sel, call, handled, nextSb, peerBudget, errCnt, lostReply>>
 
+HasReply(s) == reg[call[s].e][call[s].sb].kind \in {"secondary", "reject"}
 Finish(s, o) ==
     /\ out' = [out EXCEPT ![s] = o] /\ pc' = [pc EXCEPT ![s] = "idle"]
     /\ inflight' = inflight - 1
     /\ Dereg(call[s].e, call[s].sb)
+    /\ lostReply' = (lostReply \/ (HasReply(s) /\ o[1] \notin {"reply", "reject"}))
 
 Take(s) ==
     /\ pc[s] = "written"
@@ -90,24 +95,26 @@ Take(s) ==
        /\ m.kind \notin {"none", "empty"}
        /\ IF m.kind = "ctl" /\ ~CtlCompletesData
           THEN /\ reg' = [reg EXCEPT ![call[s].e][call[s].sb] = Empty]     \* not this transaction's reply: keep waiting
-               /\ UNCHANGED <<out, pc, inflight>>
+               /\ UNCHANGED <<out, pc, inflight, lostReply>>
           ELSE Finish(s, CASE m.kind = "secondary" -> <<"reply", m.sb, m.e>>
                            [] m.kind = "reject" -> <<"reject", m.sb, m.e>>
                            [] OTHER -> <<"nilnil", m.sb, m.e>>)
     /\ UNCHANGED <<cur, live, sel, call, wire, handled, nextSb, peerBudget, sendCnt, errCnt, dropCnt>>
 
+(* a wait ends without a reply: repaired, the slot is closed first and a reply that is already in it wins (the Take step) *)
+MayGiveUp(s) == DropsLateReply \/ ~HasReply(s)
 Timeout(s) ==
-    /\ pc[s] = "written"
+    /\ pc[s] = "written" /\ MayGiveUp(s)
     /\ Finish(s, <<"t3", 0, 0>>) /\ errCnt' = errCnt + 1
     /\ UNCHANGED <<cur, live, sel, call, wire, handled, nextSb, peerBudget, sendCnt, dropCnt>>
 
 Released(s) ==                     \* the epoch's ctx was cancelled while waiting
-    /\ pc[s] = "written" /\ ~live[call[s].e]
+    /\ pc[s] = "written" /\ ~live[call[s].e] /\ MayGiveUp(s)
     /\ Finish(s, <<"closed", 0, 0>>)
     /\ UNCHANGED <<cur, live, sel, call, wire, handled, nextSb, peerBudget, sendCnt, errCnt, dropCnt>>
 
 Cancel(s) ==
-    /\ pc[s] = "written"
+    /\ pc[s] = "written" /\ MayGiveUp(s)
     /\ Finish(s, <<"ctx", 0, 0>>)
     /\ UNCHANGED <<cur, live, sel, call, wire, handled, nextSb, peerBudget, sendCnt, errCnt, dropCnt>>
 
@@ -121,19 +128,19 @@ Recv(kind, b) ==
             /\ UNCHANGED handled
        ELSE /\ handled' = IF kind \in {"secondary", "primary"} THEN Append(handled, m) ELSE handled
             /\ UNCHANGED reg
-    /\ UNCHANGED <<cur, live, sel, pc, call, out, wire, nextSb, inflight, sendCnt, errCnt, dropCnt>>
+    /\ UNCHANGED <<cur, live, sel, pc, call, out, wire, nextSb, inflight, sendCnt, errCnt, dropCnt, lostReply>>
 
 (* ------------------------------------------------------------------ the environment *)
 Deselect == /\ sel /\ sel' = FALSE
-            /\ UNCHANGED <<cur, live, reg, pc, call, out, wire, handled, nextSb, peerBudget, inflight, sendCnt, errCnt, dropCnt>>
+            /\ UNCHANGED <<cur, live, reg, pc, call, out, wire, handled, nextSb, peerBudget, inflight, sendCnt, errCnt, dropCnt, lostReply>>
 Reselect == /\ ~sel /\ cur > 0 /\ live[cur] /\ sel' = TRUE
-            /\ UNCHANGED <<cur, live, reg, pc, call, out, wire, handled, nextSb, peerBudget, inflight, sendCnt, errCnt, dropCnt>>
+            /\ UNCHANGED <<cur, live, reg, pc, call, out, wire, handled, nextSb, peerBudget, inflight, sendCnt, errCnt, dropCnt, lostReply>>
 EndEpoch == /\ cur > 0 /\ live[cur]
             /\ live' = [live EXCEPT ![cur] = FALSE] /\ sel' = FALSE
-            /\ UNCHANGED <<cur, reg, pc, call, out, wire, handled, nextSb, peerBudget, inflight, sendCnt, errCnt, dropCnt>>
+            /\ UNCHANGED <<cur, reg, pc, call, out, wire, handled, nextSb, peerBudget, inflight, sendCnt, errCnt, dropCnt, lostReply>>
 NewEpoch == /\ cur > 0 /\ ~live[cur] /\ cur < MaxEpoch
             /\ cur' = cur + 1 /\ live' = [live EXCEPT ![cur + 1] = TRUE]
-            /\ UNCHANGED <<sel, reg, pc, call, out, wire, handled, nextSb, peerBudget, inflight, sendCnt, errCnt, dropCnt>>
+            /\ UNCHANGED <<sel, reg, pc, call, out, wire, handled, nextSb, peerBudget, inflight, sendCnt, errCnt, dropCnt, lostReply>>
 
 Next == \/ \E s \in Senders : Begin(s) \/ Write(s) \/ Take(s) \/ Timeout(s) \/ Released(s) \/ Cancel(s)
         \/ \E k \in {"secondary", "ctl", "reject", "primary"}, b \in SbVals : Recv(k, b)
@@ -152,4 +159,6 @@ NoStaleFrame == \A s \in Senders : \A e \in Epochs :
 UniqueSb == \A s, t \in Senders : (s /= t /\ pc[s] /= "idle" /\ pc[t] /= "idle") => call[s].sb /= call[t].sb
 NoDataWhenNotSelected == [][(~sel) => \A e \in Epochs : wire'[e] = wire[e]]_vars
 RegistryClean == (\A s \in Senders : pc[s] = "idle") => \A e \in Epochs, b \in SbVals : reg[e][b] = None
+(* every inbound reply reaches one recipient: one that the registry took off the handlers' path is returned to its sender *)
+NoReplyLost == ~lostReply
 =============================================================================
